@@ -471,6 +471,10 @@ func (m *MapOf[K, V]) resize(knownTable *mapOfTable[K, V], hint mapResizeHint) {
 	if !atomic.CompareAndSwapInt64(&m.resizing, 0, 1) {
 		// Someone else started resize. Wait for it to finish.
 		m.waitForResize()
+		if hint == mapClearHint {
+			// A clear must not be dropped: clear the table that the other resize published.
+			m.resize((*mapOfTable[K, V])(atomic.LoadPointer(&m.table)), mapClearHint)
+		}
 		return
 	}
 	var newTable *mapOfTable[K, V]
